@@ -343,9 +343,25 @@ def run_property(prop_id, tier, seed, only_clause=None, scale=1.0, procs=None):
     if procs == 1 or len(tasks) == 1:
         results = [_run_shard(t) for t in tasks]
     else:
-        ctx = multiprocessing.get_context("fork")
-        with ctx.Pool(procs, maxtasksperchild=4) as pool:
-            results = pool.map(_run_shard, tasks, chunksize=1)
+        # Workers come from a fork SERVER (a clean helper process started before anything of
+        # the library ran): forking the main process after the regression replays have started
+        # BLAS/OpenMP threads can leave a worker blocked on a lock for ever.  A worker that
+        # dies (crash of the interpreter inside the code under test) breaks the pool instead of
+        # hanging it; that is reported as a harness error (exit 2), never as a pass.
+        from concurrent.futures import ProcessPoolExecutor
+        from concurrent.futures.process import BrokenProcessPool
+        ctx = multiprocessing.get_context("forkserver")
+        results = []
+        with ProcessPoolExecutor(max_workers=procs, mp_context=ctx,
+                                 max_tasks_per_child=4) as ex:
+            futures = [ex.submit(_run_shard, t) for t in tasks]
+            for t, f in zip(tasks, futures):
+                try:
+                    results.append(f.result())
+                except BrokenProcessPool:
+                    harness_errors.append("worker process died while running clause %s shard %d "
+                                          "(crash outside Python's exception handling?)"
+                                          % (t[1], t[3]))
 
     per_clause = {}
     all_nontrivial = set()
